@@ -115,6 +115,7 @@ def declare(rep):
     rep.rule("R04.2", "a method that only borrows an OccupiedEntry leaves the node holding a value")
     rep.rule("R04.3", "every slot pushed on the free list holds no value at that point")
     rep.rule("R04.4", "len/is_empty read only the counter; sets delegate; all counter writers are analysed")
+    rep.rule("R04.7", "new()/default() build counter 0 and a value-less, childless root")
     rep.rule("R04.6", "(shared with C19) Clone derived over all fields, or clone/clone_from take table, free list and counter from the source")
     rep.rule("R04.5", "no exported signature returns &mut Option<T>, &mut Node, &mut Vec<Node> or &mut Table")
 
@@ -234,6 +235,19 @@ def run_config(ctx, rep, cfg, F):
                 else:
                     rep.bad("R04.4", short, "reads other state", "%s does not (only) read the entry counter: result %s, "
                             "touches %s" % (short, r, touches[:3]), config=cfg)
+        # ---- R04.7 a new collection starts with counter 0 and a value-less root
+        for short in ("PrefixMap::new", "<PrefixMap as Default>::default", "PrefixSet::new", "<PrefixSet as Default>::default"):
+            if short not in F.short:
+                rep.bad("R04.7", short, "missing", "%s not found" % short, kind="unrecognised", config=cfg)
+                continue
+            for p in ctx.paths(F, short, OPTS):
+                r = repr(p.result[1]) if p.result[0] == "ret" else C.result_str(p)
+                roots = [st.get("0", {}) for t, st in p.final.items()]
+                if p.result[0] != "ret" or "count: 0" not in r or not roots or any(x.get("value") != "N" or x.get("left") != "N" or x.get("right") != "N" for x in roots):
+                    rep.bad("R04.7", short, "initial-state", "%s must build an empty collection (counter 0, value-less childless root); it builds %s with root %s"
+                            % (short, r, roots), config=cfg)
+                else:
+                    rep.ok("R04.7", short, "counter 0, empty root", sample={"result": r, "root": roots[0]})
         # ---- R04.6 clone / clone_from keep counter and arena together (rule of C19, shared)
         from . import c19
         c19.check_clone(ctx, rep, cfg, F, rule="R04.6")
